@@ -11,18 +11,28 @@ import (
 // C05 - work results stream exactly the output from any offset and end when complete.
 
 // verifDrain takes everything that is ready on the channel without blocking; closed reports the end of stream.
-func verifDrainResults(ch chan []byte, into *[]byte) (closed bool) {
+func verifDrainResults(ch chan []byte, into *[][]byte) (closed bool) {
 	for {
 		select {
 		case b, ok := <-ch:
 			if !ok {
 				return true
 			}
-			*into = append(*into, b...)
+			// the chunk is kept as handed over (no copy): a consumer such as WriteToConn may still be
+			// writing it out while the producer goes on reading, so it must not change afterwards
+			*into = append(*into, b)
 		default:
 			return false
 		}
 	}
+}
+
+func verifJoin(chunks [][]byte) []byte {
+	var out []byte
+	for _, c := range chunks {
+		out = append(out, c...)
+	}
+	return out
 }
 
 func verifAppend(name string, data []byte) {
@@ -59,17 +69,17 @@ func Verif_C05_results_stream() {
 	ctx, cancel := context.WithCancel(context.Background())
 	ch, err := wk.w.GetResults(ctx, unit.ID(), int64(start))
 	verifapi.Assert("results-started", err == nil && ch != nil)
-	var got []byte
+	var chunks [][]byte
 	closed := false
 	step := func() {
 		for i := 0; i < 3 && !closed; i++ {
 			verifapi.Quiesce()
-			closed = verifDrainResults(ch, &got)
+			closed = verifDrainResults(ch, &chunks)
 			verifapi.AdvanceTime(300 * time.Millisecond)
 		}
 		verifapi.Quiesce()
 		if !closed {
-			closed = verifDrainResults(ch, &got)
+			closed = verifDrainResults(ch, &chunks)
 		}
 	}
 	step()
@@ -93,7 +103,7 @@ func Verif_C05_results_stream() {
 	if start <= total {
 		want = all[start:]
 	}
-	verifapi.Assert("exactly-the-output-from-the-offset", verifapi.SameBytes(got, want))
+	verifapi.Assert("exactly-the-output-from-the-offset", verifapi.SameBytes(verifJoin(chunks), want))
 	cancel()
 	verifapi.Quiesce()
 	verifapi.Assert("no-lock-left-held", verifapi.HeldLocks() == 0)
@@ -124,17 +134,17 @@ func Verif_C05_results_end_conditions() {
 	ctx, cancel := context.WithCancel(context.Background())
 	ch, err := wk.w.GetResults(ctx, unit.ID(), int64(start))
 	verifapi.Assert("results-started", err == nil && ch != nil)
-	var got []byte
+	var chunks [][]byte
 	closed := false
 	step := func() {
 		for i := 0; i < 3 && !closed; i++ {
 			verifapi.Quiesce()
-			closed = verifDrainResults(ch, &got)
+			closed = verifDrainResults(ch, &chunks)
 			verifapi.AdvanceTime(300 * time.Millisecond)
 		}
 		verifapi.Quiesce()
 		if !closed {
-			closed = verifDrainResults(ch, &got)
+			closed = verifDrainResults(ch, &chunks)
 		}
 	}
 	step()
@@ -152,7 +162,7 @@ func Verif_C05_results_end_conditions() {
 	verifapi.Cover("ended")
 	verifapi.Assert("stream-ends", closed)
 	all := append(append([]byte{}, c0...), c1...)
-	verifapi.Assert("exactly-the-output-from-the-offset", verifapi.SameBytes(got, all[start:]))
+	verifapi.Assert("exactly-the-output-from-the-offset", verifapi.SameBytes(verifJoin(chunks), all[start:]))
 	cancel()
 	verifapi.Quiesce()
 }
